@@ -28,6 +28,10 @@ def gen_filter(rnd: random.Random, depth: int = 0):
     if r < 0.8:
         return ('not', gen_filter(rnd, depth + 1))
     k = 'any' if r < 0.9 else 'all'
+    if rnd.random() < 0.3:
+        # a group whose only member is a group of the other kind
+        other = 'all' if k == 'any' else 'any'
+        return (k, [(other, [gen_filter(rnd, depth + 2) for _ in range(rnd.randint(2, 3))])])
     return (k, [gen_filter(rnd, depth + 1) for _ in range(rnd.randint(1, 3))])
 
 
